@@ -137,13 +137,13 @@ EXTRA = {
  'C10': ('; single-fault enumeration over squash', ' Per-bundle labels also cover a plain tag listed before and after the semver tag of the same bundle. Also: squash (retain 1, with/without a newer leftover, with/without retain-tags) under every single transient failure of each metadata call: bundles to keep are never removed and stay downloadable, success means exactly the specified set. Listings of more than one page (page size 2, and page size 1 when there is an interrupted upload, which then fills a page of its own) are part of the product. Plain tags are prefixes of one another (tag, tagx, tagxx). For unlabelled histories each committed bundle in turn is an empty commit, on stores where deleting a missing key fails (GCS) or succeeds (S3, localfs).'),
  'C11': ('; preemption-bounded DFS over two concurrent split uploads', ' Also: two splits with an overlapping path uploading concurrently (blob + vmetadata calls gated, one fake second per call) then a commit: recorded upload times lie between the write of the file\'s root blob and the split\'s completion, and the later upload of the shared path wins. The concurrent splits write one entry per index file (verif hook), so the index packer is inside a store call after every file; nothing a completed split uploaded may be missing from the bundle. Commits of 2..3 completed splits with every listing page size 1..10. The two paths of the merge product are a dotted path and its undotted sibling; every other small-page commit is preceded by a split that completed with no file. A commit refused in forbid mode is followed by a second commit (same object switched to ignore mode / fresh object in each other mode) for all 48 conflicting assignments over 2 splits x 2 paths: equal to a first commit in that mode.'),
  'C12': ('', ' Also: a split run crashing at every store write, then commit / cancel, then a rerun of that split ID: the rerun is refused and writes nothing. Commits of 2..3 completed splits with every listing page size 1..10: no completed split is left out. Every other small-page commit is preceded by a split that completed with no file.'),
- 'C13': ('', ' Also: a history with more than 10 index chunks (chunk size 1), whose names are not listed in numeric order on resume; reads may also hang five minutes and then fail (a single deviation that exhausts retry budgets).'),
+ 'C13': ('', ' Also: a history with more than 10 index chunks (chunk size 1), whose names are not listed in numeric order on resume; reads may also hang five minutes and then fail (a single deviation that exhausts retry budgets). The second context of the history holds a bundle whose blobs nothing else references.'),
  'C14': ('', ' Also (a\'): index, more uploads, index again with the resume option, 4 x 6 histories x chunk sizes {1,2,3,7} incl. more than 10 chunks: again exactly the referenced keys, delete-unused keeps every referenced blob. Scan parallelism alternates between 2 and 1 (fewer scanner slots than repositories of a context). (c) a fault-free index build with every store call gated and the uploader ticker firing between any two of them.'),
- 'C15': ('', ' The concurrent uploaders share content already in the store and content new to the store. Diamonds of the scenarios start with two completed splits.'),
+ 'C15': ('', ' The concurrent uploaders share content already in the store and content new to the store. Diamonds of the scenarios start with two completed splits. The sampling race pass also runs 8 whole-leaf ReadAt readers over one cafs.Fs with a one-leaf cache.'),
  'C16': ('; stateless DFS over one writer and one reader of the same key', ' Also: deletes of names that are path prefixes of keys; (c) one Put (overwrite shorter / longer, exclusive create) concurrent with one Get+read through one store object, afero open/read/write/close gated, all interleavings, and the lock option in two phases: a read returns the previous or the new object (4 known findings: torn reads). Put sources rotate over io.WriterTo / plain reader / reader delivering its last bytes with EOF. The battery also asks Has of every proper path prefix of the keys.'),
- 'C17': ('', ' Streamed mounts are run with hash verification off and on; every tree holds a file whose size is a multiple of the leaf size. One long name is listed between short ones (directory entries of different sizes). Every case runs under a 3-minute watchdog; the check stops after three stuck cases.'),
+ 'C17': ('', ' Streamed mounts are run with hash verification off and on; every tree holds a file whose size is a multiple of the leaf size. One long name is listed between short ones (directory entries of different sizes). Every case runs under a 3-minute watchdog; the check stops after three stuck cases. Plus a 96 KiB leaf size x streamed / pre-downloaded x hash verification on / off, reads at copy-buffer and leaf boundaries.'),
  'C18': ('; BFS levels run on all cores, guided deepening', ' States first reached at the depth bound whose history released an inode (unlinked and forgotten) are explored 2 (thorough 1) levels further; the staging files with their content are part of the state key. getattr compares type, size and link count with the tree model. The inode allocator is also explored on its own (verif hook): BFS over alloc / free histories with at most 4 live inodes to depth 12 (thorough 16).'),
- 'C19': ('', ' Gaps of 0 / 1 s / 25 min between appends; synthetic start tokens at the edges of the 20-minute window; every entry whose append started within 20 minutes before the start token\'s time must be listed. Half-second gaps starting 600 ms into a second cross second boundaries with less than a second elapsed.'),
+ 'C19': ('', ' Gaps of 0 / 1 s / 25 min between appends; synthetic start tokens at the edges of the 20-minute window; every entry whose append started within 20 minutes before the start token\'s time must be listed. Half-second gaps starting 600 ms into a second cross second boundaries with less than a second elapsed. Plus three appends with every store call of Add a fault point (transient error before / after / after reading the body): an acknowledged entry is listed with its payload unchanged.'),
  'C20': ('', ' The canceled diamond state must share the final descriptor path. Consumable-store paths also round-trip for bundle IDs ending in each of the 62 KSUID characters.'),
  'C22': ('', ' Also a second fixed-point search over writes between 12 boundaries straddling the byte boundaries of the 8-byte marker keys (256, 512, 65536, 2^32, 2^40). Two boundaries lie beyond the exact range of float64 (2^53+3, 2^62+1).'),
 }
